@@ -290,7 +290,7 @@ Fixpoint c17_log (fuel : nat) (obs : list nat) (log : list entry) : bool :=
       let '(got, rest') := take_obs rest in
       obs_matches n (is_kind TF n && is_prod n) obs got && c17_log f obs rest'
     | EObs _ _ _ _ _ :: _ => false          (* an observer entry without a notification *)
-    | EQuery _ _ :: t => c17_log f obs t
+    | EQuery _ _ :: t | EFireIn _ :: t | EFireOut _ _ :: t => c17_log f obs t
     end
   end.
 
@@ -337,6 +337,8 @@ Definition proj_entry (p : proj) (e : entry) : list entry :=
     then [ENotif l (proj_notif p n) (if pj_running p then r else true)] else []
   | EObs o k nm id f => if pj_obs p then [EObs o k nm (if pj_ids p then id else 0) f] else []
   | EQuery v c => if pj_queries p then [EQuery v (if pj_ids p then c else 0)] else []
+  | EFireIn i => if pj_ids p then [EFireIn i] else []
+  | EFireOut i r => if pj_ids p then [EFireOut i r] else []
   end.
 
 Definition proj_rec (p : proj) (r : callrec) : callrec :=
